@@ -1080,6 +1080,8 @@ def run(ctx):
             corpus_case = not case.name.startswith("rnd")
             nk = None if not quick else (10 if corpus_case else 5)
             ni = (4 if corpus_case else 2) if quick else 12
+            if case.name in ("c-rm", "d-rm", "d-corrupt-rm", "c-exists-force-rm"):
+                ni = 10 ** 6          # every SIGINT point of the basic --rm runs, in both tiers
             hist[case.mode + ":" + case.out.split(":")[0]] = hist.get(case.mode + ":" + case.out.split(":")[0], 0) + 1
             try:
                 nviol += check_case(rn, case, nk, ni, rng)
